@@ -71,6 +71,29 @@ def trim (l : Bytes) : Bytes := ((l.dropWhile isBlank).reverse.dropWhile isBlank
 /-- ASCII messages of a stream: one per LF-terminated line, CR and padding removed -/
 def lines (s : Bytes) : List Bytes := (splitLF s).1.map trim
 
+/-- The protocol's lines are ASCII; it does not say whether a *non-ASCII* white-space character at the edge of a line
+is padding or content.  The characters with the Unicode property White_Space outside ASCII are U+0085, U+00A0 (two
+bytes in UTF-8: C2 85, C2 A0) and U+1680, U+2000…U+200A, U+2028, U+2029, U+202F, U+205F, U+3000 (three bytes). -/
+def uni2 (a b : UInt8) : Bool := a == 0xC2 && (b == 0x85 || b == 0xA0)
+
+def uni3 (a b c : UInt8) : Bool :=
+  (a == 0xE1 && b == 0x9A && c == 0x80) ||
+  (a == 0xE2 && b == 0x80 && ((0x80 ≤ c && c ≤ 0x8A) || c == 0xA8 || c == 0xA9 || c == 0xAF)) ||
+  (a == 0xE2 && b == 0x81 && c == 0x9F) ||
+  (a == 0xE3 && b == 0x80 && c == 0x80)
+
+/-- `l` starts with the UTF-8 encoding of such a character (0 stands for "no byte there") -/
+def uniBlankFront (l : Bytes) : Bool :=
+  uni2 (l.getD 0 0) (l.getD 1 0) || uni3 (l.getD 0 0) (l.getD 1 0) (l.getD 2 0)
+
+/-- the string whose reversal is `m` ends with such a character -/
+def uniBlankBackRev (m : Bytes) : Bool :=
+  uni2 (m.getD 1 0) (m.getD 0 0) || uni3 (m.getD 2 0) (m.getD 1 0) (m.getD 0 0)
+
+/-- a line which, once the ASCII padding is removed, has no non-ASCII white space at either edge: its message is
+fixed by the protocol -/
+def edgeClean (l : Bytes) : Bool := !uniBlankFront (l.dropWhile isBlank) && !uniBlankBackRev (trim l).reverse
+
 /-- wire constants of the protocol (proto: InboundMessage.FlowMessage = PING = 1 is field 1, varint) -/
 def pingPayload : Bytes := [8, 1]
 def ackPayload : Bytes := [8, 2]
@@ -78,6 +101,35 @@ def encodeFrame (p : Bytes) : Bytes :=
   [UInt8.ofNat (p.length % 256), UInt8.ofNat (p.length / 256 % 256), UInt8.ofNat (p.length / 65536 % 256),
    UInt8.ofNat (p.length / 16777216 % 256)] ++ p
 def probe : Bytes := encodeFrame pingPayload
+
+/-! ## The timing contract of the binary read loop (reference, over a time-stamped byte stream)
+
+What the client promises in binary mode is promised to panels that keep this contract.  A frame is read in two
+steps, each with its own limit, counted from an *absolute* instant (not from the previous byte): the remaining three
+header bytes must arrive less than `timeout` ms after the frame's first byte, and the whole payload less than
+`timeout` ms after the header's last byte.  Before the first byte of a frame any time may pass. -/
+
+/-- a byte stream with arrival times (ms) -/
+abbrev TBytes := List (Nat × UInt8)
+
+/-- `tb` is a sequence of complete frames, each below the limit, each within the timing contract -/
+def inContractT (limit timeout : Nat) : TBytes → Bool
+  | [] => true
+  | a :: b :: c :: d :: rest =>
+    let len := u32le [a.2, b.2, c.2, d.2]
+    decide (b.1 < a.1 + timeout) && decide (c.1 < a.1 + timeout) && decide (d.1 < a.1 + timeout) &&
+    decide (len < limit) && decide (len ≤ rest.length) &&
+    (rest.take len).all (fun p => decide (p.1 < d.1 + timeout)) && inContractT limit timeout (rest.drop len)
+  | _ => false
+termination_by tb => tb.length
+decreasing_by
+  simp only [List.length_drop, List.length_cons]
+  omega
+
+/-- arrival times never decrease, and start at or after `c` -/
+def sortedFrom : Nat → TBytes → Prop
+  | _, [] => True
+  | c, p :: r => c ≤ p.1 ∧ sortedFrom p.1 r
 
 /-! ## Scripts and traces -/
 
@@ -339,6 +391,7 @@ def checkConnC08 (limit : Nat) (sc : Script) (tr : Trace) (k : Nat) (acts : List
   if ¬ faultOk then .skip "panel-breaks-contract"
   else if bin ∧ (parse limit an.stream).2 != .done then .skip "stream-not-a-message-sequence"
   else if ¬ bin ∧ (splitLF an.stream).2 != [] then .skip "stream-not-a-message-sequence"
+  else if ¬ bin ∧ ¬ (splitLF an.stream).1.all edgeClean then .skip "non-ascii-white-space-at-a-line-edge"
   else if bin ∧ ¬ inContractB limit tr k da [] none then .skip "frame-slower-than-contract"
   else
     match decodeAllM sc tr bin an.msgs with
@@ -556,20 +609,28 @@ def classOfReply (reply : Option Bytes) : ReplyClass :=
         else .unnamed
 
 structure ProbeScript where
-  delay : Nat            -- scheduled ms between receiving the probe and replying
-  reply : Option Bytes
+  delay : Nat            -- scheduled ms between receiving the probe and the first reply byte
+  reply : Option Bytes   -- the panel's answer: all bytes it sends
   closes : Bool
+  first : Option Bytes := reply   -- the bytes of its first write (what a single `Read` returns when the writes are
+                                  -- far enough apart); equals `reply` for the replies the property names
   deriving Repr
 
-/-- the probe exchange of a connection script: `p6 [s<ms>] [w<reply>] [c]` -/
+def writesOf : List Act → List Bytes
+  | [] => []
+  | .write b :: r => b :: writesOf r
+  | _ :: r => writesOf r
+
+/-- the probe exchange of a connection script: `p6 [s<ms>] [w<reply> [s<ms> w<more> …]] [c]` -/
 def probeScriptOf (acts : List Act) : ProbeScript :=
   let delay := (acts.map (fun a => match a with | .sleep ms => ms | _ => 0)).sum
-  let reply := acts.findSome? (fun a => match a with | .write b => some b | _ => none)
+  let first := acts.findSome? (fun a => match a with | .write b => some b | _ => none)
+  let reply := match writesOf acts with | [] => none | ws => some ws.flatten
   let closes := acts.any (fun a => a == .close || a == .reset)
   let delayBeforeReply :=
     ((acts.takeWhile (fun a => match a with | .write _ => false | .close => false | .reset => false | _ => true)).map
       (fun a => match a with | .sleep ms => ms | _ => 0)).sum
-  ⟨if reply.isSome ∨ closes then delayBeforeReply else delay, reply, closes⟩
+  ⟨if reply.isSome ∨ closes then delayBeforeReply else delay, reply, closes, first⟩
 
 /-- observed verdict: `con` flag and error text (client) or `det` (detector) -/
 def observedVerdict (client : Bool) (tr : Trace) : Option (Bool × Bytes) :=
@@ -605,6 +666,10 @@ def checkC12 (client : Bool) (sc : Script) (tr : Trace) : Verdict :=
     match observedVerdict client tr with
     | none => .fail "no-verdict"
     | some (bin, err) =>
+      -- The property ranges over reply classes × delay × entry point, not over the TCP segmentation of the reply: a
+      -- reply the panel sends in several writes is outside its domain (what a single `Read` returns then depends on
+      -- the segmentation; the model's prediction is still compared)
+      if (writesOf acts).length > 1 then .skip "reply-in-several-segments" else
       -- observed reply delay: from the panel reading the probe to its reply
       let tProbe := timeOf (fun e => match e with | .rx 0 _ => true | _ => false) tr
       let tReply := timeOf (fun e => match e with | .tx 0 _ => true | .cl 0 => true | _ => false) tr
